@@ -243,3 +243,159 @@ Theorem bad_option_value_rejected_w : forall f f' ar cns toks st1 st2 n v,
   parse f false toks = Err ValueError.
 Proof. exact bad_option_value_w. Qed.
 Print Assumptions bad_option_value_rejected_w.
+
+(* ======================= the clauses on LINE DESCRIPTIONS: a well-formed line with ONE fault =======================
+   Vocabulary of C01 (Model/Spell.v): d : ld is a line description - command-name spellings, option items in their written
+   forms, positionals, "--" tail; render d its tokens; values d its positional values; events d what it gives to the
+   options; wf_line f d the conditions under which parse f len (render d) = Ok (denote f d) (C01.parse_spells).
+   wf_line f d = forms_ok f d (the written forms are unambiguous; Proofs/ClassifyLineLemmas.v: the conjuncts names_ok,
+   items_ok, no_clash of wf_line with the conversions of the option texts taken out) && texts_convert d (every option text
+   converts) && fits (no more values than arguments - shape - and every value converts) && req_ok (every required argument
+   gets a value):  well_formed_line_is.  Each clause below keeps forms_ok and breaks ONE other conjunct.
+   fmt_ok f is the format hypothesis of parse_spells (true of every API-built format, C01.api_format_fmt_ok);
+   opts_listed_ok f: the options f lists are valid objects (the opts_ok_w of above, read off the option list of f).
+   From here on long_tok, no_eq, is_flag, names_ok unqualified are those of Model/Spell.v. *)
+From Clikit Require Import Model.Spell Proofs.SpellArgs Proofs.ClassifyLineLemmas.
+
+Theorem well_formed_line_is : forall f d,
+  wf_line f d = forms_ok f d && texts_convert d &&
+                fits (get_arguments_all f) (values d) && req_ok (get_arguments_all f) (values d).
+Proof. exact wf_line_conjuncts. Qed.
+Print Assumptions well_formed_line_is.
+Theorem fitting_values_fit_in_number : forall A V, fits A V = true -> shape A V = true.
+Proof. exact fits_shape. Qed.
+Print Assumptions fitting_values_fit_in_number.
+
+(* ---- clause 5: the line carries more positional values than the format declares arguments ---- *)
+Theorem surplus_positional_rejected : forall f d,
+  fmt_ok f = true -> forms_ok f d = true ->
+  no_multi (get_arguments_all f) = true -> length (get_arguments_all f) < length (values d) ->
+  parse f false (render d) = Err CannotParse.
+Proof. exact surplus_positional_rejected_lemma. Qed.
+Print Assumptions surplus_positional_rejected.
+Theorem surplus_positional_lenient_ok : forall f d,
+  fmt_ok f = true -> opts_listed_ok f = true -> parse f true (render d) <> Err CannotParse.
+Proof. exact surplus_positional_lenient_lemma. Qed.
+Print Assumptions surplus_positional_lenient_ok.
+
+(* ---- clause 4: the values fit in number (shape), but a required argument gets none ---- *)
+Theorem missing_required_rejected : forall f d,
+  fmt_ok f = true -> forms_ok f d = true ->
+  shape (get_arguments_all f) (values d) = true -> req_ok (get_arguments_all f) (values d) = false ->
+  parse f false (render d) = Err CannotParse.
+Proof. exact missing_required_rejected_lemma. Qed.
+Print Assumptions missing_required_rejected.
+Theorem missing_required_lenient_ok : forall f d,
+  fmt_ok f = true -> opts_listed_ok f = true -> parse f true (render d) <> Err CannotParse.
+Proof. exact missing_required_lenient_lemma. Qed.
+Print Assumptions missing_required_lenient_ok.
+
+(* ---- clause 6: the values fit in number and reach every required argument, but a text does not convert; both modes ----
+   a line of this kind is parsed, in either mode, by converting what it stores - nothing else can go wrong *)
+Theorem conversion_is_all_that_is_left : forall f d, fmt_ok f = true -> forms_ok f d = true ->
+  shape (get_arguments_all f) (values d) = true -> req_ok (get_arguments_all f) (values d) = true ->
+  forall len, parse f len (render d) =
+    do a1 <- set_arguments f {| ar_opts := []; ar_args := [] |} (place (get_arguments_all f) (values d));
+    set_options f a1 (fold_left SpellOpts.raw_event (events d) []).
+Proof. exact parse_form_line. Qed.
+Print Assumptions conversion_is_all_that_is_left.
+(* a positional text: fits = shape and every text converts *)
+Theorem unconvertible_positional_rejected : forall f d, fmt_ok f = true -> forms_ok f d = true ->
+  shape (get_arguments_all f) (values d) = true -> req_ok (get_arguments_all f) (values d) = true ->
+  fits (get_arguments_all f) (values d) = false ->
+  forall len, parse f len (render d) = Err ValueError.
+Proof. exact unconvertible_positional_rejected_lemma. Qed.
+Print Assumptions unconvertible_positional_rejected.
+(* the text s of ONE occurrence of option o (item_text: "--o=s", "--o s", "-os", "-o s", "-abos", "-abo s"); o is
+   multi-valued, or no later item mentions o - a single-valued option keeps what its LAST mention gives
+   (ClassifyLineLemmas.ValueExamples.overwritten_bad_text_accepted, ClassifyLemmas.overwritten_bad_value_accepted) *)
+Theorem unconvertible_option_value_rejected : forall f d its1 it its2 o s, fmt_ok f = true -> forms_ok f d = true ->
+  shape (get_arguments_all f) (values d) = true -> req_ok (get_arguments_all f) (values d) = true ->
+  ld_items d = its1 ++ it :: its2 -> item_text it = Some (o, s) ->
+  res_ok (parse_typed (o_type o) (o_nullable o) (VStr s)) = false ->
+  (o_multi o = true \/ SpellDenote.mentions (o_long o) (flat_map item_events its2) = false) ->
+  forall len, parse f len (render d) = Err ValueError.
+Proof. exact unconvertible_option_item_rejected_lemma. Qed.
+Print Assumptions unconvertible_option_value_rejected.
+(* the same on the events of the line *)
+Theorem unconvertible_option_event_rejected : forall f d o s es1 es2, fmt_ok f = true -> forms_ok f d = true ->
+  shape (get_arguments_all f) (values d) = true -> req_ok (get_arguments_all f) (values d) = true ->
+  events d = es1 ++ (o, GText s) :: es2 ->
+  res_ok (parse_typed (o_type o) (o_nullable o) (VStr s)) = false ->
+  (o_multi o = true \/ SpellDenote.mentions (o_long o) es2 = false) ->
+  forall len, parse f len (render d) = Err ValueError.
+Proof. exact unconvertible_option_value_rejected_lemma. Qed.
+Print Assumptions unconvertible_option_event_rejected.
+(* general form: some positional text does not convert, or the option scratch map ends up holding one that does not *)
+Theorem unconvertible_value_rejected : forall f d, fmt_ok f = true -> forms_ok f d = true ->
+  shape (get_arguments_all f) (values d) = true -> req_ok (get_arguments_all f) (values d) = true ->
+  (fits (get_arguments_all f) (values d) = false \/
+   exists n v, In (n, v) (fold_left SpellOpts.raw_event (events d) []) /\ bad_opt f n v) ->
+  forall len, parse f len (render d) = Err ValueError.
+Proof. exact unconvertible_value_lemma. Qed.
+Print Assumptions unconvertible_value_rejected.
+
+(* ---- clauses 1-3: ONE extra token at the k-th item boundary of a WELL-FORMED line (before its "--" tail) ----
+   prefix_toks d k: the tokens of the command names and of the first k items;  suffix_toks d k: those of the remaining
+   items and of the tail;  insert_tok d k tok = prefix_toks d k ++ tok :: suffix_toks d k.
+   The bridge between the two vocabularies: the strict loop processes every such prefix without error, and "--" is not in it *)
+Theorem scans_rendered_prefix : forall f d k, fmt_ok f = true -> wf_line f d = true ->
+  exists g A cns st, aug_format f = Ok (g, A, cns) /\ scans g (prefix_toks d k) st /\ existsb is_dd (prefix_toks d k) = false /\
+                     st = line_state A (prefix_line d k).
+Proof. exact scans_rendered_prefix_lemma. Qed.
+Print Assumptions scans_rendered_prefix.
+Theorem rendered_line_splits : forall d k, render d = prefix_toks d k ++ suffix_toks d k.
+Proof. exact render_split. Qed.
+Print Assumptions rendered_line_splits.
+
+Theorem unknown_option_in_line_rejected : forall f d k, fmt_ok f = true -> wf_line f d = true ->
+  forall name, name <> [] -> ClassifyLemmas.no_eq name = true -> unknown_name f name = true ->
+  parse f false (insert_tok d k (ClassifyLemmas.long_tok name)) = Err NoSuchOption.
+Proof. exact unknown_option_in_line_rejected_lemma. Qed.
+Print Assumptions unknown_option_in_line_rejected.
+Theorem unknown_option_with_value_in_line_rejected : forall f d k, fmt_ok f = true -> wf_line f d = true ->
+  forall name value, ClassifyLemmas.no_eq name = true -> unknown_name f name = true ->
+  parse f false (insert_tok d k (ClassifyLemmas.long_tok (name ++ EQ :: value))) = Err NoSuchOption.
+Proof. exact unknown_option_with_value_in_line_rejected_lemma. Qed.
+Print Assumptions unknown_option_with_value_in_line_rejected.
+Theorem unknown_short_option_in_line_rejected : forall f d k, fmt_ok f = true -> wf_line f d = true ->
+  forall flags c more,
+  starts_dash (flags ++ c :: more) = false -> forallb (ClassifyLemmas.is_flag f) flags = true -> unknown_name f [c] = true ->
+  parse f false (insert_tok d k (ClassifyLemmas.short_tok (flags ++ c :: more))) = Err NoSuchOption.
+Proof. exact unknown_short_option_in_line_rejected_lemma. Qed.
+Print Assumptions unknown_short_option_in_line_rejected.
+
+Theorem flag_with_value_in_line_rejected : forall f d k, fmt_ok f = true -> wf_line f d = true ->
+  forall o name value,
+  listed f o -> opt_named o name = true -> ClassifyLemmas.no_eq name = true -> o_accepts o = false ->
+  parse f false (insert_tok d k (ClassifyLemmas.long_tok (name ++ EQ :: value))) = Err CannotParse.
+Proof. exact flag_with_value_in_line_rejected_lemma. Qed.
+Print Assumptions flag_with_value_in_line_rejected.
+
+(* no value follows: the end of the line, the "--" separator, another option, an empty token or "-" *)
+Theorem value_missing_in_line_rejected : forall f d k, fmt_ok f = true -> wf_line f d = true ->
+  forall o name,
+  listed f o -> opt_named o name = true -> name <> [] -> ClassifyLemmas.no_eq name = true -> o_required o = true ->
+  no_value_next (suffix_toks d k) = true ->
+  parse f false (insert_tok d k (ClassifyLemmas.long_tok name)) = Err CannotParse.
+Proof. exact value_missing_in_line_rejected_lemma. Qed.
+Print Assumptions value_missing_in_line_rejected.
+Theorem value_empty_in_line_rejected : forall f d k, fmt_ok f = true -> wf_line f d = true ->
+  forall o name,
+  listed f o -> opt_named o name = true -> ClassifyLemmas.no_eq name = true -> o_required o = true ->
+  parse f false (insert_tok d k (ClassifyLemmas.long_tok (name ++ [EQ]))) = Err CannotParse.
+Proof. exact value_empty_in_line_rejected_lemma. Qed.
+Print Assumptions value_empty_in_line_rejected.
+Theorem short_value_missing_in_line_rejected : forall f d k, fmt_ok f = true -> wf_line f d = true ->
+  forall o flags c,
+  listed f o -> o_short o = Some [c] -> o_required o = true ->
+  starts_dash (flags ++ [c]) = false -> forallb (ClassifyLemmas.is_flag f) flags = true ->
+  no_value_next (suffix_toks d k) = true ->
+  parse f false (insert_tok d k (ClassifyLemmas.short_tok (flags ++ [c]))) = Err CannotParse.
+Proof. exact short_value_missing_in_line_rejected_lemma. Qed.
+Print Assumptions short_value_missing_in_line_rejected.
+(* lenient mode: no line at all ends in a parse error (the format hypothesis of the line theorems) *)
+Theorem line_lenient_total : forall f, fmt_ok f = true -> opts_listed_ok f = true ->
+  forall toks, parse f true toks <> Err CannotParse /\ parse f true toks <> Err NoSuchOption.
+Proof. exact line_lenient_no_parse_error. Qed.
+Print Assumptions line_lenient_total.
